@@ -365,9 +365,53 @@ def delta_cases(ctx):
                 ctx.fail(cid, 'base.tr2delta', 'mismatch', dict(P, law='two-arg-ref'), 'tr2delta(T0,T1) differs from the reference relative motion by %.3g' % np.abs(np.asarray(r[0]) - wantd).max())
 
 
+def symbolic_maps(ctx):
+    """the linear identities with symbolic entries, fully symbolic and mixed with plain numbers (a joint angle among constants), in every
+    container form: vex(skew(v)) = v, vexa(skewa(S)) = S, skew(a) b = a x b = cross(a, b), tr2delta(delta2tr(d)) = d"""
+    import sympy
+    import spatialmath.base as b
+    x, y, z, u, v, w = sympy.symbols('x y z u v w', real=True)
+    v3 = [('sym', [x, y, z]), ('mixed-last', [0, 0, z]), ('mixed-first', [x, 0, 1]), ('mixed-mid', [2, y, 0])]
+    v6 = [('sym', [x, y, z, u, v, w]), ('mixed', [x, 0, 0, 0, 0, w]), ('mixed2', [0, 1, z, u, 0, 0])]
+    forms = (('list', lambda a: list(a)), ('tuple', lambda a: tuple(a)), ('array', lambda a: np.array(a, dtype=object)))
+
+    def same_sym(A_, B_):
+        A_, B_ = np.asarray(A_, dtype=object).ravel(), np.asarray(B_, dtype=object).ravel()
+        return A_.shape == B_.shape and all(sympy.simplify(sympy.sympify(p) - sympy.sympify(q)) == 0 for p, q in zip(A_, B_))
+    for (vn, vec), (fn, fm) in itertools.product(v3, forms):
+        cid = 'C13/sym/so3/%s/%s' % (vn, fn)
+        if not ctx.want(cid):
+            continue
+        ctx.case(cid, key=cid)
+        P = dict(grid='symbolic', vec=vn, form=fn)
+        bb = [1, u, -2]
+        cr = [vec[1] * bb[2] - vec[2] * bb[1], vec[2] * bb[0] - vec[0] * bb[2], vec[0] * bb[1] - vec[1] * bb[0]]
+        for site, f, want in (('base.skew', lambda: b.vex(b.skew(fm(vec))), vec), ('base.skew', lambda: b.skew(fm(vec)) @ np.array(bb, dtype=object), cr),
+                              ('base.cross', lambda: b.cross(fm(vec), fm(bb)), cr)):
+            ok, r = call(f)
+            if not ok:
+                ctx.fail(cid, site, 'raises:' + type(r).__name__, P, '%s with the %s vector %s (%s) raised %r' % (site, vn, vec, fn, r))
+            elif not same_sym(r, want):
+                ctx.fail(cid, site, 'mismatch', P, '%s with the %s vector: %s, expected %s' % (site, vn, np.asarray(r).tolist(), want))
+    for (vn, vec), (fn, fm) in itertools.product(v6, forms):
+        cid = 'C13/sym/se3/%s/%s' % (vn, fn)
+        if not ctx.want(cid):
+            continue
+        ctx.case(cid, key=cid)
+        P = dict(grid='symbolic', vec=vn, form=fn)
+        tests = [('base.skewa', lambda: b.vexa(b.skewa(fm(vec))), vec), ('base.skewa', lambda: b.vexa(b.skewa(fm(vec[:2] + vec[5:]))), vec[:2] + vec[5:]),
+                 ('base.delta2tr', lambda: b.tr2delta(b.delta2tr(fm(vec))), vec)]
+        for site, f, want in tests:
+            ok, r = call(f)
+            if not ok:
+                ctx.fail(cid, site, 'raises:' + type(r).__name__, P, '%s with the %s vector (%s) raised %r' % (site, vn, fn, r))
+            elif not same_sym(r, want):
+                ctx.fail(cid, site, 'mismatch', P, '%s with the %s vector: %s, expected %s' % (site, vn, np.asarray(r).tolist(), want))
+
+
 def shards(tier, seed):
     K = 6 if tier == 'quick' else 24
-    return [('lin',), ('delta',)] + [('adj', k, K) for k in range(K)] + [('expad', k, K) for k in range(K)]
+    return [('lin',), ('delta',), ('sym',)] + [('adj', k, K) for k in range(K)] + [('expad', k, K) for k in range(K)]
 
 
 def run_shard(ctx, shard):
@@ -376,6 +420,8 @@ def run_shard(ctx, shard):
         lin_maps(ctx)
     elif k == 'delta':
         delta_cases(ctx)
+    elif k == 'sym':
+        symbolic_maps(ctx)
     elif k == 'adj':
         adjoint_cases(ctx, shard[1], shard[2])
     else:
